@@ -57,15 +57,20 @@ def validate_inputs(
     bound_seeds = _bound_cycle_seeds(graph, selected, (active_nodes, active_subgraph))
     cycle_ep_params |= bound_seeds
 
+    from hypergraph.graph._helpers import get_edge_produced_values
+
+    edge_produced = get_edge_produced_values(active_subgraph)
+
     # Step 1: Merge bound + provided
-    merged = {**inputs_spec.bound, **values}
+    # A binding inherited from a nested graph is only a fallback for that
+    # graph's parameter: when an edge of this graph feeds the parameter, the
+    # edge value is used and nothing is injected.
+    shadowed = {k for k in inputs_spec.bound if k in edge_produced and k not in graph._bound}
+    merged = {**{k: v for k, v in inputs_spec.bound.items() if k not in shadowed}, **values}
     provided = set(merged.keys())
 
     # Step 2/3: Internal/unknown parameter handling
-    from hypergraph.graph._helpers import get_edge_produced_values
-
     expected_inputs = set(inputs_spec.all)
-    edge_produced = get_edge_produced_values(active_subgraph)
     interrupt_outputs = _get_interrupt_outputs(active_nodes)
     unexpected = provided - expected_inputs - interrupt_outputs - bound_seeds
     internal_edge = unexpected & edge_produced
